@@ -58,6 +58,57 @@ def _machine_jobs(c, harness, N, modes, sym='d', split_from=8):
                 c.add(Job(harness, [('bytes', sym, n), ('int', m)], weight=3 ** n))
 
 
+def window_templates(base, nfree=1, positions=None, step=1):
+    """every window of nfree free bytes over a long concrete document: the document with bytes
+    [pos, pos+nfree) replaced by free bytes, for every pos. One job per position decides all 256^nfree
+    variants of the document there; together they put every byte value into every lane / block offset of
+    whatever chunked (word-at-a-time, block-wise) fast path the code may take on inputs longer than the
+    exhaustive bound."""
+    out = []
+    rng = positions if positions is not None else range(0, len(base) - nfree + 1, step)
+    for pos in rng:
+        if pos + nfree > len(base):
+            continue
+        t = []
+        if pos:
+            t.append(base[:pos])
+        t.append(nfree)
+        if base[pos + nfree:]:
+            t.append(base[pos + nfree:])
+        out.append(t)
+    return out
+
+
+# long well-formed documents whose structural bytes sit at many different distances from a container start
+LONG_DOCS = [
+    b'[1,2,3,[4],5, 6.5e1 ,"abcdefgh\\n",{"k":[true,null]}]',
+    b'{"abcdefghij":[100000,[100000],"a"],"b":{"c":"0123456789abcdef"}}',
+    b' \t\r\n \t\r\n \t\r\n \t\r\n  [false,"a" ,[ ] ,{ } ]  ',
+]
+
+
+LONG_WINDOW_BOUND = '%d jobs: long concrete documents (35-65 bytes) with a window of one (thorough: also two) free bytes at every offset'
+
+
+def array_lane_docs(maxpad):
+    """[ <pad digits> ,[4],"a",5] for every pad length: the first structural byte after '[' at every distance"""
+    return [b'[' + b'1' * k + b',[4],"a",5]' for k in range(1, maxpad + 1)] + [b'[' + b' ' * k + b'[4],"a"]' for k in range(0, maxpad + 1, 3)]
+
+
+def _window_jobs(c, harness, extra, tier, opts=None, docs=None, weight=60):
+    docs = LONG_DOCS if docs is None else docs
+    n = 0
+    for d in docs:
+        for t in window_templates(d, 1):
+            c.add(Job(harness, [('tmpl', 'd', t)] + list(extra), weight=weight, opts=dict(opts or {}, nsamples=0)))
+            n += 1
+        if tier != 'quick':
+            for t in window_templates(d, 2):
+                c.add(Job(harness, [('tmpl', 'd', t)] + list(extra), weight=weight * 3, opts=dict(opts or {}, nsamples=0)))
+                n += 1
+    return n
+
+
 def check_C01(tier, nproc=None):
     c = Check('C01', tier)
     N = 7 if tier == 'quick' else 11
@@ -67,9 +118,10 @@ def check_C01(tier, nproc=None):
     ND = 8 if tier == "quick" else 10
     _depth_jobs(c, 'vH_C01', ND, [0, 4, 14])
     ncorpus = _corpus_jobs(c, 'vH_C01', [('int', 4)], limit=(40 if tier == 'quick' else None))
+    nwin = _window_jobs(c, 'vH_C01', [('int', 0)], tier) + _window_jobs(c, 'vH_C01', [('int', 4)], tier, docs=array_lane_docs(17)[::3])
     c.bounds = {'N': N, 'buffer_modes': modes, 'meaning': 'every byte string of length <= N; Buffer nil / fresh / used with arbitrary contents',
                 'depth_limit': 'all strings <= %d with the limit scaled to 3 (nesting up to and beyond the limit), Buffer nil / used len 2 / used len 12' % ND,
-                'concrete_corpus_inputs': ncorpus}
+                'concrete_corpus_inputs': ncorpus, 'long_document_windows': LONG_WINDOW_BOUND % nwin}
     c.must_reach = ['C01.compared']
     c.assumptions = ['reference vRefValid (harness/zz_verif_ref.go) is RFC 8259; validated natively against encoding/json',
                      'go/ssa lowering and the gosym encoder model the compiled code (validated by native replay of samples)',
@@ -89,7 +141,8 @@ def check_C02(tier, nproc=None):
     ND = 8 if tier == "quick" else 10
     _depth_jobs(c, 'vH_C02', ND, [0, 4, 14])
     ncorpus = _corpus_jobs(c, 'vH_C02', [('int', 0)], limit=(40 if tier == 'quick' else None))
-    c.bounds = {'N': N, 'buffer_modes': modes, 'depth_limit': 'all strings <= %d with the limit scaled to 3' % ND, 'concrete_corpus_inputs': ncorpus}
+    nwin = _window_jobs(c, 'vH_C02', [('int', 0)], tier) + _window_jobs(c, 'vH_C02', [('int', 4)], tier, docs=array_lane_docs(17)[1::3])
+    c.bounds = {'N': N, 'buffer_modes': modes, 'depth_limit': 'all strings <= %d with the limit scaled to 3' % ND, 'concrete_corpus_inputs': ncorpus, 'long_document_windows': LONG_WINDOW_BOUND % nwin}
     c.must_reach = ['C02.compared']
     c.assumptions = ['reference vRefSkip is the one-pass RFC 8259 prefix reading; validated natively against encoding/json Decoder offsets',
                      'encoder validated by native replay of samples', 'amd64']
@@ -115,7 +168,8 @@ def check_C11(tier, nproc=None):
     for t in STRING_TEMPLATES:
         c.add(Job('vH_C11', [('tmpl', 'd', t), ('int', 0)], weight=3 ** 8))
     _depth_jobs(c, 'vH_C11', 8 if tier == 'quick' else 10, [0, 14])
-    c.bounds = {'N': N, 'buffer_modes_for_fast': modes, 'templates': [''.join(('?' * x) if isinstance(x, int) else x.decode() for x in t) for t in STRING_TEMPLATES]}
+    nwin = _window_jobs(c, 'vH_C11', [('int', 0)], tier) + _window_jobs(c, 'vH_C11', [('int', 4)], tier, docs=array_lane_docs(18))
+    c.bounds = {'N': N, 'buffer_modes_for_fast': modes, 'long_document_windows': LONG_WINDOW_BOUND % nwin, 'templates': [''.join(('?' * x) if isinstance(x, int) else x.decode() for x in t) for t in STRING_TEMPLATES]}
     c.must_reach = ['C11.wellformed']
     c.assumptions = ['encoder validated by native replay of samples', 'amd64']
     c.outside = ['inputs longer than N bytes', 'depth limit 10,000']
@@ -135,7 +189,12 @@ def check_C13(tier, nproc=None):
             c.add(Job('vH_C13_token', [('bytescap', 'd', n, 2)], weight=2 ** (n + 2)))
         if n <= min(N - 1, 7):
             c.add(Job('vH_C13_exclusive', [('bytes', 'd', n)], weight=5 ** n, opts={'float_contract': True}))
-    c.bounds = {'N': N, 'N_exclusive': min(N - 1, 7)}
+    # whitespace runs longer than any word/block a chunked whitespace skipper may use, one free byte at every offset
+    WS = [b' ' * 35 + b'true ', b' \t\r\n' * 9 + b'null', b'\n' * 17 + b'"a"', b'\t' * 33, b' ' * 24 + b'-1.5 ', b'\r\n' * 10 + b'false']
+    nwin = 0
+    for h, o in (('vH_C13_token', None), ('vH_C13_literals', None), ('vH_C13_exclusive', {'float_contract': True})):
+        nwin += _window_jobs(c, h, [], tier, opts=o, docs=WS if tier != 'quick' or h == 'vH_C13_token' else WS[:3], weight=20)
+    c.bounds = {'N': N, 'N_exclusive': min(N - 1, 7), 'long_whitespace_windows': LONG_WINDOW_BOUND % nwin}
     c.must_reach = ['C13.eof', 'C13.token', 'C13.readnull', 'C13.exclusive']
     c.assumptions = ['reference token table / literal matcher in harness/zz_verif_ref.go', 'amd64']
     c.outside = ['inputs longer than N bytes (whitespace prefixes longer than N)']
@@ -246,7 +305,9 @@ def check_C10(tier, nproc=None):
     for t in DEPTH_TREE_TEMPLATES:
         for which in (0, 2):
             c.add(Job('vH_C03', [('tmpl', 'd', t), ('int', which)], weight=4 ** 6, opts={'float_contract': True, 'scale_depth': 3}))
-    c.bounds = {'N_handlers': N, 'N_entry_points': NS, 'handler_offsets': 'free 64-bit value at every call',
+    nwin = _window_jobs(c, 'vH_C10_scalars', [('int', 4)], tier, docs=LONG_DOCS + [b' ' * 20 + b'18446744073709551615 ', b'-1234567890123456789012.5e-17'])
+    nwin += _window_jobs(c, 'vH_C10_strings', [('int', 3)], tier, docs=[b'"abcdefghijklmnopqrstuvwxyz0123456789"', b'"abcdefghi\\njklmnopqrs\\u00e9tuvwxyz\\ud83d\\ude00"'])
+    c.bounds = {'N_handlers': N, 'N_entry_points': NS, 'handler_offsets': 'free 64-bit value at every call', 'long_document_windows': LONG_WINDOW_BOUND % nwin,
                 'beyond_depth_limit': 'generic decoding of nesting templates with the limit scaled to 3'}
     c.must_reach = ['C10.handler-returned', 'C10.scalars-done', 'C10.strings-done']
     _std(c, ['every implicit Go runtime check (index, slice bounds, nil dereference, type assertion, division, make size) is an assertion of the encoding'])
@@ -371,7 +432,19 @@ def check_C06(tier, nproc=None):
             c.add(Job('vH_C06_bytes', [('tmpl', 'd', t), ('int', pre), ('int', spare)], weight=5000))
             c.add(Job('vH_C06_unescape', [('tmpl', 'd', t), ('int', pre), ('int', spare)], weight=5000))
         c.add(Job('vH_C06_string', [('tmpl', 'd', t), ('bool', True)], weight=5000))
+    # long string tokens (beyond any word/block size of a chunked scanner), one free byte at every offset
+    SL = [b'"abcdefghijklmnopqrstuvwxyz0123456789"', b' "abcdefghi\\njklmnopqrs\\u00e9tuvwxyz" ', b'"\xc3\xa9\xe2\x82\xac\xf0\x9f\x98\x80abcdefghijklmno\\"p"']
+    nwin = 0
+    for d in SL:
+        for t in window_templates(d, 1) + (window_templates(d, 2) if tier != 'quick' else []):
+            c.add(Job('vH_C06_bytes', [('tmpl', 'd', t), ('int', 1), ('int', 3)], weight=40, opts={'nsamples': 0}))
+            c.add(Job('vH_C06_string', [('tmpl', 'd', t), ('bool', True)], weight=40, opts={'nsamples': 0}))
+            nwin += 2
+            if d[:1] == b'"':
+                c.add(Job('vH_C06_unescape', [('tmpl', 'd', t), ('int', 0), ('int', 0)], weight=40, opts={'nsamples': 0}))
+                nwin += 1
     c.bounds = {'N': N, 'templates': [''.join(('?' * x) if isinstance(x, int) else x.decode() for x in t) for t in T],
+                'long_string_windows': LONG_WINDOW_BOUND % nwin,
                 'destination': 'prefix 0..2 arbitrary bytes, spare capacity 0,1,3,4,n,n+4'}
     c.must_reach = ['C06.bytes-compared', 'C06.bytes-ok', 'C06.string-compared', 'C06.unescape-wellformed']
     _std(c)
